@@ -265,6 +265,9 @@ func (a *List) M__delitem__(key Object) (Object, error) {
 			return nil, err
 		}
 		if step == 1 {
+			if stop < start {
+				stop = start
+			}
 			a.Items = append(a.Items[:start], a.Items[stop:]...)
 		} else {
 			j := 0
